@@ -9,7 +9,8 @@ from ..runner import Prop, OK, DISCARD, FAIL, HarnessError
 from .. import gen
 from .. import impl
 
-ODD = ['hello world', 'A', "it's", 'é', 'line1\nline2', 'a\rb', 'x\x85y', 'é☃ z', 'f\x0cg', 'v\x0bw', 'tab\tx', '# not a comment', 'a\n# b', '']
+ODD = ['hello world', 'A', "it's", 'é', 'line1\nline2', 'a\rb', 'x\x85y', 'é☃ z', 'f\x0cg', 'v\x0bw', 'tab\tx', '# not a comment', 'a\n# b', '',
+       'a\x00b', 'nul\x00', '\x1a', 'e\x1b[0m', 'u\u2028v', 'w\u2029x', 'bs\x08', 'x\x1cy', 'x\x1dy', 'x\x1ey']
 CFG = gen.with_cfg(control=frozenset(['cut', ';', 'ite', 'not']), meta=True, library=False, max_clauses=4, min_clauses=1, odd_atoms=ODD)
 FLAGS = ['-d', '--debug-parser', '--debug-generator', '--debug-filename']
 
